@@ -200,8 +200,48 @@ def _between(p, a, b):
     return Or(And(a <= p, p <= b), And(b <= p, p <= a))
 
 
+def body_larger(ctx, kind):
+    """Concrete datasets beyond the sizes of the symbolic cases: more than 4096 / 65536 cells, many different face sizes,
+    long axes. The polygons, the validity mask and the extent are compared with the independent reference geometry."""
+    from harness import geomref
+    v = int(ctx.int('variant', 0, 1))
+    if kind == 'cf1d-65x64':
+        ds = pipeline.builders.cf1d(65 + v, 64, lat=numpy.linspace(-40.0, -8.0, 65 + v), lon=numpy.linspace(110.0, 160.0, 64))
+    elif kind == 'cf2d-70x60':
+        jj, ii = numpy.meshgrid(numpy.arange(70.0 + v), numpy.arange(60.0), indexing='ij')
+        lat, lon = -40.0 + 0.5 * jj + 0.01 * ii, 110.0 + 0.5 * ii - 0.01 * jj
+        lat[5, 7] = lon[5, 7] = numpy.nan
+        lat[40:43, 50:52] = lon[40:43, 50:52] = numpy.nan
+        ds = pipeline.builders.cf2d(70 + v, 60, lat=lat, lon=lon)
+    elif kind == 'shoc-66x63':
+        ds = pipeline.builders.shoc_standard(66, 63 + v)
+    elif kind == 'cf1d-257x256':
+        ds = pipeline.builders.cf1d(257 + v, 256, lat=numpy.linspace(-40.0, -8.0, 257 + v), lon=numpy.linspace(110.0, 160.0, 256))
+    elif kind == 'mesh-9-and-12-nodes':
+        ds = pipeline.builders.ugrid('nonagon', fill=('nan', 'attr')[v], start_index=v)
+    elif kind == 'mesh-fan-of-9':
+        ds = pipeline.builders.ugrid('fan9', fill='none', start_index=v)
+    elif kind == 'mesh-sizes-3-to-7':
+        ds = pipeline.builders.ugrid('poly34567', fill=('nan', 'attr')[v], start_index=v)
+    elif kind == 'mesh-5000-faces':
+        n = 70 + v
+        nodes = [(100.0 + 0.01 * i, -30.0 + 0.01 * j) for j in range(n + 1) for i in range(n + 1)]
+        faces = [[j * (n + 1) + i, j * (n + 1) + i + 1, (j + 1) * (n + 1) + i + 1, (j + 1) * (n + 1) + i] for j in range(n) for i in range(n)]
+        faces[-1] = faces[-1][:3]          # one triangle: the table has fill entries
+        ds = pipeline.builders.ugrid((nodes, faces), fill='nan')
+    cv = ds.ems
+    ref = geomref.check(ctx, ds, cv)
+    have = [p for p in ref if p is not None]
+    import shapely
+    b = shapely.unary_union(have).bounds
+    ctx.check(all(abs(float(a) - float(c)) <= 1e-9 for a, c in zip(cv.bounds, b)), 'bounds == bounding box of the polygons that exist')
+    ctx.check(abs(cv.geometry.area - sum(p.area for p in have)) <= 1e-6 * sum(p.area for p in have), 'geometry == union of the cell polygons (area)')
+
+
 def cases(tier):
     q = tier == 'quick'
+    for kind in ('cf1d-65x64', 'cf2d-70x60', 'shoc-66x63', 'mesh-sizes-3-to-7', 'mesh-5000-faces', 'cf1d-257x256', 'mesh-9-and-12-nodes', 'mesh-fan-of-9'):
+        yield Case(f'larger:{kind}', body_larger, dict(kind=kind), max_paths=4)
     PM = {m: pipeline.patches(m) for m in ('sandwich', 'all', 'rect')}
     cfgs = [
         ('cf1d', (2, 2), 'none', True, (), False), ('cf1d', (2, 3), 'stored', False, (), False),
